@@ -94,7 +94,7 @@ def _index_terms1(e0):
     """(term, kind) for Int-sorted arguments of select / seq.nth applications in quantifier-free parts."""
     from .smt import raw_find
     found = {}
-    for e in raw_find(e0, ("select", "seq.nth", "seq.nth_i", "seq.nth_u", "seq.at", "nth.int", "nth.Dyn", "nth.Ref", "nth.String"), skip_quant=True):
+    for e in raw_find(e0, ("select", "seq.nth", "seq.nth_i", "seq.nth_u", "seq.at"), skip_quant=True, prefixes="nth."):
         kd = _kind_of_app(e)
         if kd is None or e.num_args() < 2:
             continue
@@ -319,8 +319,17 @@ def prepare(hyps: List[z3.BoolRef], goal: z3.BoolRef, extra_terms=()):
         for t in list(skolems) + list(extra_terms):
             if not any(t.get_id() == i for i, _ in have):
                 cands.append((t, "any"))
-        inst = []
+        # element terms nth.Ref(S, j) of the goal side are offered to quantifiers over objects (comprehension binders)
         allq = quants + ex_q
+        if any(q.var_sort(i).name() == "Ref" for q in allq for i in range(q.num_vars())):
+            from .smt import raw_find
+            seen_r = set()
+            for src_e in [g] + ex_ground:
+                for e in raw_find(src_e, ("nth.Ref",), skip_quant=True):
+                    if e.get_id() not in seen_r and not _has_var(e) and len(seen_r) < 12:
+                        seen_r.add(e.get_id())
+                        cands.append((e, "any"))
+        inst = []
         for q in allq:
             inst += instantiate(q, cands)
         # second round: index terms that appear through the first round of instances
@@ -411,7 +420,7 @@ def _nth_apps(f):
         return r[0]
     apps = {}
     from .smt import raw_find
-    for e in raw_find(f, ("nth.int", "nth.Dyn", "nth.Ref", "nth.String"), skip_quant=True):
+    for e in raw_find(f, (), skip_quant=True, prefixes="nth."):
         if e.num_args() == 2 and not _has_var(e):
             apps[e.get_id()] = e
     res = list(apps.values())
